@@ -89,18 +89,20 @@ def observe (status : Nat) (c : Cli) : String :=
   let body := if c.fr == .none then [] else c.body
   s!"st={status} fr={showFr c.fr} len={body.length} fnv={hex64 (fnv body)} end={fin} conn=" ++ (if keep then "keep" else "close") ++ s!" next={next}"
 
-/-- line: `<cache> <ver> <method> <status> <ofr> <seed> <pieces> <cut> <end> <hsplit> <segs> <stall> <hv>` -/
+/-- cache `r` = the request is re-forwarded (a first parent answered a complete 502 that Squid discards): the client sees what the
+second attempt alone yields, so the prediction is that of `n`.
+line: `<cache> <ver> <method> <status> <ofr> <seed> <pieces> <cut> <end> <hsplit> <segs> <stall> <hv>` -/
 def handle (line : String) : String :=
   match Driver.words line with
   | [cache, ver, method, status, ofr, seed, pieces, cut, fin, hsplit, segs, _stall, hv] =>
     match status.toNat?, parseOfr ofr, seed.toNat?, parsePieces pieces, (if cut == "-" then some none else cut.toNat?.map some), natList segs, hv.toNat? with
     | some status, some (chunked, cl), some seed, some ps, some cut, some segs, some hv =>
-      if (cache != "n" && cache != "m" && cache != "d") || (ver != "11" && ver != "10" && ver != "10k") || (method != "GET" && method != "HEAD")
+      if (cache != "n" && cache != "m" && cache != "d" && cache != "r") || (ver != "11" && ver != "10" && ver != "10k") || (method != "GET" && method != "HEAD")
          || (fin != "fin" && fin != "keep" && fin != "rst") || status < 200 || status > 599 || hv > 3 then "bad-op"
       else if hsplit.startsWith "c" then
         -- the origin never finished its header: Squid answers with its own error page
         let one := "st=502 fr=cl:? len=? fnv=? end=complete conn=keep next=ok"
-        if cache == "n" then one else one ++ " | " ++ one
+        if cache == "n" || cache == "r" then one else one ++ " | " ++ one
       else
         let P := Params.tree true
         let isHead := method == "HEAD"
@@ -117,7 +119,7 @@ def handle (line : String) : String :=
         let evs : List SEv := segList.map SEv.data ++ (if fin == "fin" then [SEv.eof] else if fin == "rst" then [SEv.error] else [])
         let x := evs.foldl (fun x e => drain P seed (sent.length + 8) { x with s := srvStep P x.s e }) (⟨Srv.init fr (serverTe P isHead status chunked), c0⟩ : Sys)
         let one := observe status x.c
-        if cache == "n" then one else one ++ " | " ++ one
+        if cache == "n" || cache == "r" then one else one ++ " | " ++ one
     | _, _, _, _, _, _, _ => "bad-op"
   | _ => "bad-op"
 
